@@ -96,11 +96,19 @@ theorem C01_classify_tablemap_new (env : Env) (st : PState) (cfg : W.Cfg) (hr : 
     Facts.eXIDEvent, Facts.eRotateEvent, Facts.eQueryEvent, Facts.eTableMapEvent]
   simp [hm, hcl, tmOf]
 
-/-- (1g) … and for an id already cached: the map is replaced, the mapper's earlier answer kept, the mapper not asked -/
-theorem C01_classify_tablemap_known (env : Env) (st : PState) (cfg : W.Cfg) (hr : Ready cfg st) (crc : Option Bytes)
+/-- (1g) … and for an id already cached *for the same table* (database and name): the map is replaced, the mapper's
+    earlier answer kept, the mapper not asked.
+
+    (Until finding F13 was repaired in streamer.go this held for every cached id — the theorem was called
+    `C01_classify_tablemap_known` and had no `hsame` — which is exactly the defect: an id re-used for another table
+    kept the old table's mapper info.  For the repaired code that statement is false, see
+    `GV.Props.C15c.C15_packet_id_reused_other_table`.) -/
+theorem C01_classify_tablemap_known_same_table (env : Env) (st : PState) (cfg : W.Cfg) (hr : Ready cfg st)
+    (crc : Option Bytes)
     (hc : crcOK cfg crc) (m : W.EvMeta) (start : Nat) (t : W.TableDef) (ht : TableOK cfg t) (optional : Bytes)
     (hok : EvOK crc m start (W.tableMapBody (idw cfg) t.id 1 t.db t.name t.cols optional))
-    (old : TableCache) (hold : findTable st.tables t.id = some old) :
+    (old : TableCache) (hold : findTable st.tables t.id = some old)
+    (hsame : old.tableMap.database = t.db ∧ old.tableMap.name = t.name) :
     classify env st (W.event crc m 19 start (W.tableMapBody (idw cfg) t.id 1 t.db t.name t.cols optional)).1
       = .tableMap t.id { old with tableMap := tmOf t } true := by
   obtain ⟨h1, h2, h3, h4, _, _⟩ := C01.pre st.format crc m 19 start _ (GV.C01b.crc_pre hr hc)
@@ -108,7 +116,26 @@ theorem C01_classify_tablemap_known (env : Env) (st : PState) (cfg : W.Cfg) (hr 
   obtain ⟨hid, htm⟩ := tm_decoders st cfg hr crc m start t ht optional h4
   simp only [classify, h1, h2, h3, h4, hid, htm, hold, ofRes, GV.C01b.notZero hr, Facts.eFormatDescriptionEvent,
     Facts.eXIDEvent, Facts.eRotateEvent, Facts.eQueryEvent, Facts.eTableMapEvent]
-  simp [tmOf]
+  simp [tmOf, hsame.1, hsame.2]
+
+/-- (1g') a TABLE_MAP event for an id that is cached for *another* table (the id was re-used: table ids start over
+    when the master restarts) is treated like one for a new id: the mapper is consulted and, its column count agreeing,
+    the decoded map and the mapper's answer are what `stepD` will put in the cache in place of the stale entry -/
+theorem C01_classify_tablemap_reused (env : Env) (st : PState) (cfg : W.Cfg) (hr : Ready cfg st) (crc : Option Bytes)
+    (hc : crcOK cfg crc) (m : W.EvMeta) (start : Nat) (t : W.TableDef) (ht : TableOK cfg t) (optional : Bytes)
+    (hok : EvOK crc m start (W.tableMapBody (idw cfg) t.id 1 t.db t.name t.cols optional))
+    (old : TableCache) (hold : findTable st.tables t.id = some old)
+    (hdiff : ¬ (old.tableMap.database = t.db ∧ old.tableMap.name = t.name))
+    (hm : env.mapper t.db t.name = some (infoOf t)) :
+    classify env st (W.event crc m 19 start (W.tableMapBody (idw cfg) t.id 1 t.db t.name t.cols optional)).1
+      = .tableMap t.id ⟨tmOf t, infoOf t⟩ false := by
+  obtain ⟨h1, h2, h3, h4, _, _⟩ := C01.pre st.format crc m 19 start _ (GV.C01b.crc_pre hr hc)
+    (GV.C01b.meta_pre 19 (by decide) hok)
+  obtain ⟨hid, htm⟩ := tm_decoders st cfg hr crc m start t ht optional h4
+  have hcl : (infoOf t).columns.length = t.cols.length := by simp [infoOf, ht.names, ht.unsigned]
+  simp only [classify, h1, h2, h3, h4, hid, htm, hold, ofRes, GV.C01b.notZero hr, Facts.eFormatDescriptionEvent,
+    Facts.eXIDEvent, Facts.eRotateEvent, Facts.eQueryEvent, Facts.eTableMapEvent]
+  simp [hm, hcl, tmOf, hdiff]
 
 /-- (1h) a rows event (write / update / delete, v1 / v2, 4- / 6-byte id, full or partial images) for a cached table
     is classified as exactly the change the master logged -/
